@@ -576,6 +576,52 @@ func VerifC01Swamp(h *verifrt.H) {
 	h.Cover("end")
 }
 
+// VerifC05Recreate: delete followed by re-creation inside one open session of a persistent
+// swamp: key a is written, deleted (key b keeps the swamp alive), optionally something else is
+// written, then a is written again with a symbolic value and expiry - the solver is free to make
+// them equal to the first version - and the swamp is closed and re-summoned: a exists with the
+// second value and expiry, b is untouched.
+func VerifC05Recreate(h *verifrt.H) {
+	h.BackgroundLowPriority(true)
+	dir := h.TempDir() + "/sw"
+	wi := time.Duration(h.Choose("immediateWrite", 2)) * time.Second
+	s := vfPersist(h, dir, time.Second-wi, nil)
+	set := func(k string, v, e int64) {
+		t := s.CreateTreasure(k)
+		g := t.StartTreasureGuard(true)
+		t.SetContentInt64(g, v)
+		t.SetExpirationTime(g, time.Unix(0, e).UTC())
+		t.Save(g)
+		t.ReleaseTreasureGuard(g)
+	}
+	v1, e1 := h.Int64("value1"), h.Int64("expiry1")
+	set("a", v1, e1)
+	set("b", 7, 7)
+	if h.Choose("flushBetween", 2) == 1 {
+		s.WriteTreasuresToFilesystem()
+	}
+	h.Assert(s.DeleteTreasure("a", false) == nil, "delete")
+	switch h.Choose("between", 3) {
+	case 1:
+		set("b", 8, 8)
+	case 2:
+		s.WriteTreasuresToFilesystem()
+	}
+	v2, e2 := h.Int64("value2"), h.Int64("expiry2")
+	set("a", v2, e2)
+	before := c05take(s, "a")
+	s.Close()
+	r := vfPersist(h, dir, time.Second, nil)
+	after := c05take(r, "a")
+	h.Assert(before.exists && after.exists, "recreated-record-exists-after-reload")
+	if after.exists {
+		h.Assert(after.val == v2 && after.expiry == e2, "recreated-record-has-the-second-version")
+	}
+	h.Assert(c05take(r, "b").exists, "other-record-untouched")
+	r.Close()
+	h.Cover("end")
+}
+
 // ---------- C09 ----------
 
 func c09set(s Swamp, key string, v int64) treasure.TreasureStatus {
